@@ -223,7 +223,7 @@ def system_cases(draw, tier):
     form = draw(st.sampled_from(['residual', 'functional']))
     terms = dict(cubic=draw(st.sampled_from([0., 0., .5, 1.])), exp=draw(st.sampled_from([0., 0., .25])), log=draw(st.sampled_from([0., 0., 0., 1.])), sqrt=draw(st.sampled_from([0., 0., 0., 1.])),
                  nosol=draw(st.sampled_from([False, False, False, True])))
-    method = draw(st.sampled_from(['default', 'Direct', 'Newton', 'ReuseNewton', 'LinesearchNewton', 'LinesearchNewton-median', 'Minimize', 'Arnoldi',
+    method = draw(st.sampled_from(['default', 'Direct', 'Newton', 'ReuseNewton', 'LinesearchNewton', 'LinesearchNewton-median', 'Minimize', 'Arnoldi', 'Pseudotime', 'legacy-pseudotime',
                                    'legacy-newton', 'legacy-solve_linear', 'legacy-minimize', 'legacy-optimize']))
     cons = draw(st.sampled_from(['none', 'none', 'bool', 'nan']))
     cmask = [draw(st.booleans()) for _ in range(n)]
@@ -298,6 +298,9 @@ def check_system(case, rec):
             if m == 'LinesearchNewton-median': return S.solve(method=solver.LinesearchNewton(strategy=solver.MedianBased()), **k)['u']
             if m == 'Minimize': return S.solve(method=solver.Minimize(), **k)['u']
             if m == 'Arnoldi': return S.solve(method=solver.Arnoldi(), **k)['u']
+            if m == 'Pseudotime':
+                if case['form'] != 'residual': raise Discard('pseudotime-needs-residual')
+                return S.solve(method=solver.Pseudotime(inertia=(u,), timestep=case['tol'] and 1.), **k)['u']
             lhs0 = arguments.get('u')
             c = cons.get('u')
             if c is not None and c.dtype == bool:
@@ -306,6 +309,8 @@ def check_system(case, rec):
                 return solver.newton('u', fun, lhs0=lhs0, constrain=c).solve(tol, **({'maxiter': case['maxiter']} if case['maxiter'] is not None else {}))
             if m == 'legacy-solve_linear':
                 return solver.solve_linear('u', fun, lhs0=lhs0, constrain=c)
+            if m == 'legacy-pseudotime':
+                return solver.pseudotime('u', fun, inertia=u, timestep=1., lhs0=numpy.zeros(n) if lhs0 is None else lhs0, constrain=c).solve(tol, **({'maxiter': case['maxiter']} if case['maxiter'] is not None else {}))
             if case['form'] != 'functional':
                 raise Discard('legacy-minimize-needs-functional')
             val = S._System__value if hasattr(S, '_System__value') else None
